@@ -5,7 +5,7 @@
    schedule is not modelled: the theorems hold for every sequence of draws / every number of steps. *)
 From Coq Require Import ZArith List Bool Lia.
 Require Import Rig.Model.Base Rig.Model.Place Rig.Spec.Place Rig.Proofs.Place Rig.Proofs.PlaceCore
-        Rig.Proofs.PlaceMerge Rig.Proofs.PlaceSeq.
+        Rig.Proofs.PlaceMerge Rig.Proofs.PlaceSeq Rig.Proofs.PlaceComplete.
 Import ListNotations.
 Open Scope Z_scope.
 
@@ -441,4 +441,318 @@ Proof.
     + rewrite N5, M6, adj_adj. apply adj_ext. intros r. lia.
     + f_equal. rewrite N6, M5, adj_adj. apply adj_ext. intros r. lia.
   - rewrite R2, R1. reflexivity.
+Qed.
+
+Lemma swap_chip_res : forall vr vas a vbs b s s1,
+  swap vr vas a vbs b s = Ok s1 ->
+  forall c, chip_res (st_m s1) c
+            = if chip_eqb c b then adj (fun r => dsum vr vbs r - dsum vr vas r) (chip_res (st_m s) b)
+              else if chip_eqb c a then adj (fun r => dsum vr vas r - dsum vr vbs r) (chip_res (st_m s) a)
+              else chip_res (st_m s) c.
+Proof.
+  intros vr vas a vbs b s s1 H c. destruct (swap_spec _ _ _ _ _ _ _ H) as [_ [_ [_ [la [lb [_ [_ [_ [_ [_ [X R]]]]]]]]]]].
+  unfold chip_res at 1. rewrite X, R, !cassoc_cupdate.
+  destruct (chip_eqb c b); [reflexivity|]. destruct (chip_eqb c a); reflexivity.
+Qed.
+
+(* ---------------------------------------------------------------------------------------------- *)
+(* Moving vertices between chips                                                                    *)
+(* ---------------------------------------------------------------------------------------------- *)
+Lemma load_move : forall (vr : vresources) pl v d x y c r,
+  NoDup (map fst vr) -> zassoc v vr = Some d -> zassoc v pl = Some x ->
+  load vr (pl_set v y pl) c r
+  = load vr pl c r + (if chip_eqb y c then rget r d else 0) - (if chip_eqb x c then rget r d else 0).
+Proof.
+  intros vr pl v d x y c r. unfold load. induction vr as [|[u du] t IH]; intros Hnd Hz Hp.
+  - cbn [zassoc] in Hz. discriminate.
+  - cbn [map fold_right fst snd]. cbn [map fst] in Hnd. inversion Hnd as [|? ? Hni Hnd']. subst.
+    cbn [zassoc] in Hz. rewrite on_chip_set. destruct (v =? u) eqn:E.
+    + apply Z.eqb_eq in E. subst u. inversion Hz. subst du. rewrite Z.eqb_refl.
+      pose proof (load_set_other t pl v y c r Hni) as Hoth. unfold load in Hoth. rewrite Hoth.
+      unfold on_chip at 2. rewrite Hp. destruct (chip_eqb y c); destruct (chip_eqb x c); lia.
+    + assert (E' : (u =? v) = false) by (rewrite Z.eqb_sym; exact E). rewrite E'.
+      rewrite (IH Hnd' Hz Hp). lia.
+Qed.
+
+Lemma load_move_all : forall (vr : vresources) vs pl x y c r,
+  NoDup (map fst vr) -> NoDup vs ->
+  (forall v, In v vs -> zassoc v pl = Some x /\ exists d, zassoc v vr = Some d) ->
+  load vr (fold_left (fun p v => pl_set v y p) vs pl) c r
+  = load vr pl c r + (if chip_eqb y c then dsum vr vs r else 0) - (if chip_eqb x c then dsum vr vs r else 0).
+Proof.
+  intros vr vs. induction vs as [|v vs IH]; intros pl x y c r Hnd Hvs H; cbn [fold_left].
+  - unfold dsum, sumz. cbn [map fold_right]. destruct (chip_eqb y c); destruct (chip_eqb x c); lia.
+  - inversion Hvs as [|? ? Hni Hvs']. subst. destruct (H v (or_introl eq_refl)) as [Hp [d Hd]].
+    rewrite (IH (pl_set v y pl) x y c r Hnd Hvs').
+    + rewrite (load_move vr pl v d x y c r Hnd Hd Hp). rewrite dsum_cons, (demand_some vr v d r Hd).
+      destruct (chip_eqb y c); destruct (chip_eqb x c); lia.
+    + intros u Hu. destruct (H u (or_intror Hu)) as [Hpu Hdu]. split; [|exact Hdu].
+      unfold pl_set. rewrite zassoc_zupdate. destruct (u =? v) eqn:E; [|exact Hpu].
+      apply Z.eqb_eq in E. subst u. contradiction.
+Qed.
+
+Lemma remove_first_spec : forall v (l : list vertex), NoDup l ->
+  NoDup (list_remove_first v l) /\ forall u, In u (list_remove_first v l) <-> In u l /\ u <> v.
+Proof.
+  intros v l. induction l as [|h t IH]; intros Hnd; cbn [list_remove_first].
+  - split; [constructor|]. intros u. cbn [In]. tauto.
+  - inversion Hnd as [|? ? Hni Hnd']. subst. destruct (IH Hnd') as [G1 G2]. destruct (h =? v) eqn:E.
+    + apply Z.eqb_eq in E. subst h. split; [exact Hnd'|]. intros u. cbn [In]. split.
+      * intros Hu. split; [right; exact Hu | intros Heq; subst; contradiction].
+      * intros [[Hu | Hu] Hne]; [congruence | exact Hu].
+    + apply Z.eqb_neq in E. split.
+      * constructor; [|exact G1]. intros Hin. apply G2 in Hin. tauto.
+      * intros u. cbn [In]. rewrite G2. split.
+        -- intros [Hu | [Hu Hne]]; [subst; split; [left; reflexivity | exact E] | split; [right; exact Hu | exact Hne]].
+        -- intros [[Hu | Hu] Hne]; [left; exact Hu | right; split; assumption].
+Qed.
+
+Lemma remove_fold_spec : forall vs (l : list vertex), NoDup l ->
+  NoDup (fold_left (fun l v => list_remove_first v l) vs l)
+  /\ forall u, In u (fold_left (fun l v => list_remove_first v l) vs l) <-> In u l /\ ~ In u vs.
+Proof.
+  induction vs as [|v vs IH]; intros l Hnd; cbn [fold_left].
+  - split; [exact Hnd|]. intros u. cbn [In]. tauto.
+  - destruct (remove_first_spec v l Hnd) as [R1 R2]. destruct (IH _ R1) as [G1 G2]. split; [exact G1|].
+    intros u. rewrite G2, R2. cbn [In]. split.
+    + intros [[H1 H2] H3]. split; [exact H1|]. intros [H | H]; [congruence | contradiction].
+    + intros [H1 H2]. split; [split; [exact H1 | intros Heq; apply H2; left; congruence] | intros H; apply H2; right; exact H].
+Qed.
+
+Lemma swap_preserves : forall vr m0 cs fixed vas a vbs b s s1,
+  wf_core vr m0 -> SAInv vr m0 cs fixed s ->
+  a <> b -> NoDup vas -> NoDup vbs ->
+  (forall v, In v vas -> zassoc v (st_pl s) = Some a /\ ~ In v fixed) ->
+  (forall v, In v vbs -> zassoc v (st_pl s) = Some b /\ ~ In v fixed) ->
+  swap vr vas a vbs b s = Ok s1 ->
+  (forall r q, In (r, q) (chip_res (st_m s1) a) -> 0 <= q) ->
+  (forall r q, In (r, q) (chip_res (st_m s1) b) -> 0 <= q) ->
+  SAInv vr m0 cs fixed s1.
+Proof.
+  intros vr m0 cs fixed vas a vbs b s s1 Hwc [S1 S2 S3 S4 S5 S6 S7] Hab Hna Hnb Hva Hvb Hsw Hnna Hnnb.
+  pose proof (swap_chip_res _ _ _ _ _ _ _ Hsw) as Hcr.
+  destruct (swap_spec _ _ _ _ _ _ _ Hsw) as [Hla [Hlb [Hdem [la [lb [Ela [Elb [Epl [El2v [Hfr [Hexc Hres]]]]]]]]]]].
+  destruct S1 as [Ifr Ik Ile Inn Ind]. destruct S2 as [P1 P2 P3].
+  assert (Hla0 : live m0 a = true) by (rewrite <- (live_frame m0 (st_m s) a Ifr); exact Hla).
+  assert (Hlb0 : live m0 b = true) by (rewrite <- (live_frame m0 (st_m s) b Ifr); exact Hlb).
+  assert (Eab : chip_eqb a b = false) by (apply chip_eqb_neq; exact Hab).
+  assert (Eba : chip_eqb b a = false) by (apply chip_eqb_neq; intros E; apply Hab; symmetry; exact E).
+  set (pl1 := fold_left (fun p v => pl_set v b p) vas (st_pl s)) in *.
+  destruct (fold_set_spec b vas (st_pl s) P1) as [Q1 Q2]. fold pl1 in Q1, Q2.
+  destruct (fold_set_spec a vbs pl1 Q1) as [Q3 Q4]. rewrite <- Epl in Q3, Q4.
+  assert (Hz2 : forall u, zassoc u (st_pl s1)
+                          = if zmem u vbs then Some a else if zmem u vas then Some b else zassoc u (st_pl s)).
+  { intros u. rewrite Q4, Q2. reflexivity. }
+  assert (Hdisj : forall u, In u vas -> In u vbs -> False).
+  { intros u H1 H2. destruct (Hva u H1) as [E1 _]. destruct (Hvb u H2) as [E2 _]. congruence. }
+  assert (Hload : forall c r, load vr (st_pl s1) c r
+            = load vr (st_pl s) c r
+              + (if chip_eqb b c then dsum vr vas r else 0) - (if chip_eqb a c then dsum vr vas r else 0)
+              + (if chip_eqb a c then dsum vr vbs r else 0) - (if chip_eqb b c then dsum vr vbs r else 0)).
+  { intros c r. rewrite Epl. fold pl1.
+    rewrite (load_move_all vr vbs pl1 b a c r (wc_nodup _ _ Hwc) Hnb).
+    - unfold pl1. rewrite (load_move_all vr vas (st_pl s) a b c r (wc_nodup _ _ Hwc) Hna).
+      + lia.
+      + intros v Hv. split; [apply (proj1 (Hva v Hv)) | apply Hdem; left; exact Hv].
+    - intros v Hv. split; [|apply Hdem; right; exact Hv]. rewrite Q2.
+      destruct (zmem v vas) eqn:E; [reflexivity | apply (proj1 (Hvb v Hv))]. }
+  constructor.
+  - (* Inv *)
+    constructor.
+    + eapply same_frame_trans; eassumption.
+    + intros c Hl. rewrite Hcr. destruct (chip_eqb c b) eqn:E1.
+      * apply chip_eqb_eq in E1. subst c. rewrite adj_keys. apply Ik. exact Hl.
+      * destruct (chip_eqb c a) eqn:E2.
+        -- apply chip_eqb_eq in E2. subst c. rewrite adj_keys. apply Ik. exact Hl.
+        -- apply Ik. exact Hl.
+    + intros c r Hl Hr. rewrite Hcr, Hload. specialize (Ile c r Hl Hr).
+      destruct (chip_eqb c b) eqn:E1.
+      * apply chip_eqb_eq in E1. subst c. rewrite chip_eqb_refl, Eab.
+        rewrite rget_adj by (rewrite (Ik b Hl); exact Hr). lia.
+      * destruct (chip_eqb c a) eqn:E2.
+        -- apply chip_eqb_eq in E2. subst c. rewrite chip_eqb_refl, Eba.
+           rewrite rget_adj by (rewrite (Ik a Hl); exact Hr). lia.
+        -- rewrite (chip_eqb_sym b c), E1, (chip_eqb_sym a c), E2. lia.
+    + intros c r q Hl Hin. destruct (chip_eqb c b) eqn:E1.
+      * apply chip_eqb_eq in E1. subst c. apply (Hnnb r q Hin).
+      * destruct (chip_eqb c a) eqn:E2.
+        -- apply chip_eqb_eq in E2. subst c. apply (Hnna r q Hin).
+        -- rewrite Hcr, E1, E2 in Hin. apply (Inn c r q Hl Hin).
+    + rewrite Hexc. apply cupdate_NoDup. apply cupdate_NoDup. exact Ind.
+  - (* PlInv *)
+    constructor.
+    + exact Q3.
+    + intros v c Hz. rewrite Hz2 in Hz. destruct (zmem v vbs); [inversion Hz; subst; exact Hla0|].
+      destruct (zmem v vas); [inversion Hz; subst; exact Hlb0 | apply (P2 v c Hz)].
+    + intros v Hv. apply zassoc_key_Some in Hv. destruct Hv as [c Hc]. rewrite Hz2 in Hc.
+      destruct (zmem v vbs) eqn:E1.
+      * apply zmem_In in E1. apply P3. apply (zassoc_Some_key v _ b). apply (proj1 (Hvb v E1)).
+      * destruct (zmem v vas) eqn:E2.
+        -- apply zmem_In in E2. apply P3. apply (zassoc_Some_key v _ a). apply (proj1 (Hva v E2)).
+        -- apply P3. apply (zassoc_Some_key v _ c). exact Hc.
+  - intros v Hv. apply S3 in Hv. apply zassoc_key_Some in Hv. destruct Hv as [c Hc].
+    destruct (zmem v vbs) eqn:E1; [apply (zassoc_Some_key v _ a); rewrite Hz2, E1; reflexivity|].
+    destruct (zmem v vas) eqn:E2; [apply (zassoc_Some_key v _ b); rewrite Hz2, E1, E2; reflexivity|].
+    apply (zassoc_Some_key v _ c). rewrite Hz2, E1, E2. exact Hc.
+  - intros v c Hin. rewrite Hz2. pose proof (S5 v c Hin) as Hf.
+    assert (E1 : zmem v vbs = false) by (apply zmem_false; intros H; apply (proj2 (Hvb v H)); exact Hf).
+    assert (E2 : zmem v vas = false) by (apply zmem_false; intros H; apply (proj2 (Hva v H)); exact Hf).
+    rewrite E1, E2. apply S4. exact Hin.
+  - exact S5.
+  - (* l2v lists only vertices that are on the chip *)
+    intros c ws u Hc Hu. rewrite El2v, !cassoc_cupdate in Hc.
+    pose proof (S7 a la Ela) as Hnla. pose proof (S7 b lb Elb) as Hnlb.
+    assert (Hnlbv : NoDup (lb ++ vas)).
+    { apply NoDup_app_intro; [exact Hnlb | exact Hna|]. intros x H1 H2.
+      pose proof (S6 b lb x Elb H1) as E1. destruct (Hva x H2) as [E2 _]. congruence. }
+    destruct (chip_eqb c b) eqn:E1.
+    + apply chip_eqb_eq in E1. subst c. inversion Hc. subst ws. clear Hc.
+      destruct (remove_fold_spec vbs (lb ++ vas) Hnlbv) as [_ R2]. apply R2 in Hu. destruct Hu as [Hu Hnb'].
+      rewrite Hz2. apply zmem_false in Hnb'. rewrite Hnb'. apply in_app_iff in Hu. destruct Hu as [Hu | Hu].
+      * destruct (zmem u vas); [reflexivity | apply (S6 b lb u Elb Hu)].
+      * apply zmem_In in Hu. rewrite Hu. reflexivity.
+    + destruct (chip_eqb c a) eqn:E2.
+      * apply chip_eqb_eq in E2. subst c. inversion Hc. subst ws. clear Hc. rewrite Hz2.
+        destruct (zmem u vbs) eqn:Eb; [reflexivity|]. apply in_app_iff in Hu. destruct Hu as [Hu | Hu].
+        -- destruct (remove_fold_spec vas la Hnla) as [_ R2]. apply R2 in Hu. destruct Hu as [Hu Hna'].
+           apply zmem_false in Hna'. rewrite Hna'. apply (S6 a la u Ela Hu).
+        -- apply zmem_In in Hu. congruence.
+      * pose proof (S6 c ws u Hc Hu) as Ep. rewrite Hz2.
+        assert (F1 : zmem u vbs = false).
+        { apply zmem_false. intros H. destruct (Hvb u H) as [E _]. rewrite E in Ep. inversion Ep. subst c.
+          rewrite chip_eqb_refl in E1. discriminate. }
+        assert (F2 : zmem u vas = false).
+        { apply zmem_false. intros H. destruct (Hva u H) as [E _]. rewrite E in Ep. inversion Ep. subst c.
+          rewrite chip_eqb_refl in E2. discriminate. }
+        rewrite F1, F2. exact Ep.
+  - (* each l2v list has no repetitions *)
+    intros c ws Hc. rewrite El2v, !cassoc_cupdate in Hc.
+    pose proof (S7 a la Ela) as Hnla. pose proof (S7 b lb Elb) as Hnlb.
+    destruct (chip_eqb c b) eqn:E1.
+    + inversion Hc. subst ws. apply remove_fold_spec.
+      apply NoDup_app_intro; [exact Hnlb | exact Hna|]. intros x H1 H2.
+      pose proof (S6 b lb x Elb H1) as E3. destruct (Hva x H2) as [E4 _]. congruence.
+    + destruct (chip_eqb c a) eqn:E2.
+      * inversion Hc. subst ws. destruct (remove_fold_spec vas la Hnla) as [R1 R2].
+        apply NoDup_app_intro; [exact R1 | exact Hnb|]. intros x H1 H2. apply R2 in H1. destruct H1 as [H1 _].
+        pose proof (S6 a la x Ela H1) as E3. destruct (Hvb x H2) as [E4 _]. congruence.
+      * apply (S7 c ws Hc).
+Qed.
+
+(* ---------------------------------------------------------------------------------------------- *)
+(* One swap attempt of the Python kernel preserves the invariant                                    *)
+(* ---------------------------------------------------------------------------------------------- *)
+Lemma dsum_single : forall (vr : vresources) v d r, zassoc v vr = Some d -> dsum vr [v] r = rget r d.
+Proof. intros vr v d r H. unfold dsum, sumz. cbn [map fold_right]. rewrite (demand_some vr v d r H). lia. Qed.
+
+Theorem sa_step_preserves : forall vr m0 cs fixed s src dst accept s' kept,
+  wf_core vr m0 -> SAInv vr m0 cs fixed s ->
+  sa_step vr fixed s src dst accept = Ok (s', kept) ->
+  SAInv vr m0 cs fixed s'.
+Proof.
+  intros vr m0 cs fixed s src dst accept s' kept Hwc Hsa H. unfold sa_step, demand_of, lv_get in H.
+  destruct (zassoc src (st_pl s)) as [a|] eqn:Ea; [|discriminate].
+  destruct (zassoc src vr) as [sres|] eqn:Esr; [|discriminate].
+  destruct (zmem src fixed || chip_eqb dst a) eqn:Eguard; [discriminate|].
+  apply orb_false_iff in Eguard. destruct Eguard as [Efix Ene].
+  destruct (negb (live (st_m s) dst)) eqn:El; [inversion H; subst; exact Hsa|]. apply negb_false_iff in El.
+  destruct (mget (st_m s) dst) as [dcr|] eqn:Egd; [|discriminate].
+  destruct (cassoc dst (st_l2v s)) as [dvs0|] eqn:Elv; [|discriminate].
+  destruct (mget (st_m s) a) as [scr|] eqn:Egs; [|discriminate].
+  apply mget_spec in Egd. destruct Egd as [_ Hdcr]. apply mget_spec in Egs. destruct Egs as [Hla Hscr]. subst dcr scr.
+  destruct (candidate_swap vr fixed sres (chip_res (st_m s) dst) dvs0 []) as [o| | |] eqn:Ec; cbn [bind] in H;
+    try discriminate.
+  destruct o as [dvs|]; [|inversion H; subst; exact Hsa].
+  destruct (candidate_swap_spec _ _ _ _ _ _ _ Ec) as [added [A1 [A2 [A3 A4]]]]. cbn [app] in A1. subst added.
+  pose proof (A3 (sv_l2v_nodup _ _ _ _ _ Hsa dst dvs0 Elv)) as Hnd_dvs.
+  assert (Hdem : forall v, In v dvs -> exists d, zassoc v vr = Some d) by (intros v Hv; apply (A2 v Hv)).
+  rewrite (back_fold vr dvs _ Hdem) in H.
+  match type of H with (if ?b then _ else _) = _ => destruct b eqn:Eback end; [inversion H; subst; exact Hsa|].
+  assert (Hab : a <> dst).
+  { apply chip_eqb_neq in Ene. intros E. apply Ene. symmetry. exact E. }
+  assert (Hsrc : forall v, In v [src] -> zassoc v (st_pl s) = Some a /\ ~ In v fixed).
+  { intros v [Hv | []]. subst v. split; [exact Ea | apply zmem_false; exact Efix]. }
+  assert (Hdv : forall v, In v dvs -> zassoc v (st_pl s) = Some dst /\ ~ In v fixed).
+  { intros v Hv. destruct (A2 v Hv) as [B1 [B2 _]]. split; [apply (sv_l2v _ _ _ _ _ Hsa dst dvs0 v Elv B1) | apply zmem_false; exact B2]. }
+  assert (Hns : NoDup [src]) by (constructor; [intros [] | constructor]).
+  destruct (swap vr [src] a dvs dst s) as [s1| | |] eqn:Esw; cbn [bind] in H; try discriminate.
+  pose proof (swap_chip_res _ _ _ _ _ _ _ Esw) as Hcr1.
+  assert (Edst_a : chip_eqb a dst = false) by (apply chip_eqb_neq; exact Hab).
+  assert (Hs1 : SAInv vr m0 cs fixed s1).
+  { apply (swap_preserves vr m0 cs fixed [src] a dvs dst s s1 Hwc Hsa Hab Hns Hnd_dvs Hsrc Hdv Esw).
+    - intros r q Hin. rewrite Hcr1, Edst_a, chip_eqb_refl in Hin.
+      apply (overallocated_false _ Eback r q). rewrite add_adj, adj_adj.
+      rewrite (adj_ext _ (fun r0 => dsum vr [src] r0 - dsum vr dvs r0)); [exact Hin|].
+      intros r0. cbn beta. change (dsum vr [src] r0) with (demand vr src r0 + 0). unfold demand. rewrite Esr. lia.
+    - intros r q Hin. rewrite Hcr1, chip_eqb_refl in Hin.
+      apply (overallocated_false _ A4 r q). rewrite sub_adj, adj_adj.
+      rewrite (adj_ext _ (fun r0 => dsum vr dvs r0 - dsum vr [src] r0)); [exact Hin|].
+      intros r0. cbn beta. change (dsum vr [src] r0) with (demand vr src r0 + 0). unfold demand. rewrite Esr. lia. }
+  destruct accept.
+  - inversion H. subst. exact Hs1.
+  - destruct (swap vr [src] dst dvs a s1) as [s2| | |] eqn:Esw2; cbn [bind] in H; try discriminate.
+    inversion H. subst s' kept. clear H.
+    pose proof (swap_chip_res _ _ _ _ _ _ _ Esw2) as Hcr2.
+    (* where the vertices are after the first swap *)
+    destruct (swap_spec _ _ _ _ _ _ _ Esw) as [_ [_ [_ [la [lb [_ [_ [Epl1 _]]]]]]]].
+    destruct (fold_set_spec dst [src] (st_pl s) (pi_nodup _ _ _ (sv_pl _ _ _ _ _ Hsa))) as [Q1 Q2].
+    destruct (fold_set_spec a dvs _ Q1) as [_ Q4]. rewrite <- Epl1 in Q4.
+    assert (Hsrc_dvs : zmem src dvs = false).
+    { apply zmem_false. intros Hin. destruct (Hdv src Hin) as [E _]. congruence. }
+    assert (Hab' : dst <> a) by (intros E; apply Hab; symmetry; exact E).
+    apply (swap_preserves vr m0 cs fixed [src] dst dvs a s1 s2 Hwc Hs1 Hab' Hns Hnd_dvs).
+    + intros v [Hv | []]. subst v. split; [|apply zmem_false; exact Efix].
+      rewrite Q4, Hsrc_dvs, Q2. unfold zmem. cbn [existsb]. rewrite Z.eqb_refl. reflexivity.
+    + intros v Hv. split; [|apply (proj2 (Hdv v Hv))]. rewrite Q4.
+      assert (Hz : zmem v dvs = true) by (apply zmem_In; exact Hv). rewrite Hz. reflexivity.
+    + exact Esw2.
+    + (* the resources of the destination chip are what they were before the attempt *)
+      intros r q Hin. rewrite Hcr2, (chip_eqb_sym dst a), Edst_a, chip_eqb_refl in Hin.
+      rewrite Hcr1, chip_eqb_refl, adj_adj, adj_zero in Hin by (intros r0; lia).
+      apply (inv_nonneg _ _ _ _ _ (sv_inv _ _ _ _ _ Hsa) dst r q); [|exact Hin].
+      rewrite <- (live_frame m0 (st_m s) dst (inv_frame _ _ _ _ _ (sv_inv _ _ _ _ _ Hsa))). exact El.
+    + (* and so are those of the source chip *)
+      intros r q Hin. rewrite Hcr2, chip_eqb_refl in Hin.
+      rewrite Hcr1, Edst_a, chip_eqb_refl, adj_adj, adj_zero in Hin by (intros r0; lia).
+      apply (inv_nonneg _ _ _ _ _ (sv_inv _ _ _ _ _ Hsa) a r q); [|exact Hin].
+      rewrite <- (live_frame m0 (st_m s) a (inv_frame _ _ _ _ _ (sv_inv _ _ _ _ _ Hsa))). exact Hla.
+Qed.
+
+Lemma sa_steps_preserve : forall vr m0 cs fixed draws s s',
+  wf_core vr m0 -> SAInv vr m0 cs fixed s -> sa_steps vr fixed s draws = Ok s' -> SAInv vr m0 cs fixed s'.
+Proof.
+  intros vr m0 cs fixed draws. induction draws as [|[[src dst] acc] t IH]; intros s s' Hwc Hsa H; cbn [sa_steps] in H.
+  - inversion H. subst. exact Hsa.
+  - destruct (sa_step vr fixed s src dst acc) as [[s1 k]| | |] eqn:E; cbn [bind fst] in H; try discriminate.
+    apply (IH s1 s' Hwc (sa_step_preserves _ _ _ _ _ _ _ _ _ _ Hwc Hsa E) H).
+Qed.
+
+(* The annealer's answer, for ANY kernel: whatever state satisfying the invariant the kernel hands back,
+   its placement expands (finalise_same_chip_constraints) to a feasible placement of the original
+   problem.  The initial state satisfies the invariant and every _step of the Python kernel preserves it;
+   a kernel preserving it (for whatever sequence of temperatures, distance limits and step counts the
+   float-valued schedule produces) therefore yields a feasible result. *)
+Theorem anneal_result_feasible : forall vr m cs lp vp s0,
+  wf_problem vr m cs -> consistent cs -> sa_prepare vr m cs lp vp = Ok s0 ->
+  exists cs1,
+    wf_core (ss_vr s0) m
+    /\ SAInv (ss_vr s0) m cs1 (map fst (ss_fixed s0)) (sa_init_state s0)
+    /\ forall s, SAInv (ss_vr s0) m cs1 (map fst (ss_fixed s0)) s ->
+                 exists pl, finalise (rev (ss_subs s0)) (st_pl s) = Ok pl /\ Feasible vr m cs pl.
+Proof.
+  intros vr m cs lp vp s0 W Hc Hp. destruct (sa_prepare_inv vr m cs lp vp s0 W Hc Hp) as [cs1 [Ea Hsa]].
+  destruct (merged_problem vr m cs (ss_vr s0) cs1 (ss_subs s0) W Hc Ea) as [Hpw [Hdeg [_ Hfin]]].
+  exists cs1. split; [exact (pwf_core _ _ _ Hpw)|]. split; [exact Hsa|].
+  intros s Hs. apply Hfin. apply (SAInv_feasible _ _ _ _ _ (pwf_core _ _ _ Hpw) (pwf_cv _ _ _ Hpw) Hdeg Hs).
+Qed.
+
+(* in particular for the Python kernel, after any sequence of swap attempts *)
+Theorem sa_python_kernel_feasible : forall vr m cs lp vp s0 draws s,
+  wf_problem vr m cs -> consistent cs -> sa_prepare vr m cs lp vp = Ok s0 ->
+  sa_steps (ss_vr s0) (map fst (ss_fixed s0)) (sa_init_state s0) draws = Ok s ->
+  exists pl, finalise (rev (ss_subs s0)) (st_pl s) = Ok pl /\ Feasible vr m cs pl.
+Proof.
+  intros vr m cs lp vp s0 draws s W Hc Hp Hs.
+  destruct (anneal_result_feasible vr m cs lp vp s0 W Hc Hp) as [cs1 [Hwc [Hinit Hall]]].
+  apply Hall. apply (sa_steps_preserve _ _ _ _ draws _ _ Hwc Hinit Hs).
 Qed.
